@@ -410,6 +410,9 @@ def family_pl(tier='thorough'):
         ('nonconvex4', (2.0, 0.0, -1.0, 1.0), (-1.0, 0.5, 1.5)),
         ('bp>0', (1.0, 3.0), (1.5,)),
         ('bp<0', (0.0, 1.0), (-1.0,)),
+        ('bp<-1', (1.0, -2.0), (-1.5,)),                 # 0 lies beyond the breakpoints by more than the unit end segment
+        ('bps<-1', (0.5, 2.0, -1.0), (-2.0, -1.5)),
+        ('bps>1', (2.0, -1.0, 0.5), (1.5, 2.0)),
         ('zigzag6', (1.0, -1.0, 1.0, -1.0, 1.0, -1.0), (-1.5, -0.5, 0.5, 1.0, 1.5)),
         ('outside', (1.0, 2.0, -1.0), (-3.0, 4.0)),
         ('steps5', (0.0, 2.0, 0.0, -2.0, 0.0), (-1.0, 0.0, 1.0, 2.0)),
@@ -430,11 +433,29 @@ def family_pl(tier='thorough'):
         yield ('pl %s sum-rev' % sn, Model(V3, acons=[(('add', ('pl', (1.0, -1.0), (1.0,), Y), ('pl', sl, bp, X)), {}, 0.5, 1.5)]))
 
 
+def family_affprod():
+    """products of two affine expressions: same single variable with / without constants on either side, equal
+    factors, different variables, a sum times a difference (the flattener has shortcuts for each of these)"""
+    A = lambda *t: t[0] if len(t) == 1 else ('add', t[0], A(*t[1:]))
+    k = lambda c, e: ('mul', N(c), e)
+    prods = [
+        ('(x+1)*x', ('mul', A(X, N(1)), X)), ('x*(x+1)', ('mul', X, A(X, N(1)))), ('(x+2)*(3x)', ('mul', A(X, N(2)), k(3, X))),
+        ('(2x)*(3x)', ('mul', k(2, X), k(3, X))), ('(x+1)*(x+1)', ('mul', A(X, N(1)), A(X, N(1)))),
+        ('(2x-1)*(x+1)', ('mul', A(k(2, X), N(-1)), A(X, N(1)))), ('(x+1)*(b-1)', ('mul', A(X, N(1)), A(B, N(-1)))),
+        ('(x+y)*(x-y)', ('mul', A(X, Y), ('sub', X, Y))), ('(y+1)*y', ('mul', A(Y, N(1)), Y)), ('(x+b)*(x+b)', ('mul', A(X, B), A(X, B))),
+        ('(x+1)*x*b', ('mul', ('mul', A(X, N(1)), X), B)),
+    ]
+    for nm, e in prods:
+        for rn, m in roots_numeric('affprod ' + nm, e, V3):
+            yield (rn, m)
+        yield ('affprod %s reified' % nm, Model(V3, lcons=[('or', ('ge', e, N(2)), ('ge', B, N(1)))], obj=('min', None, {0: 1.0, 1: 1.0, 2: 1.0})))
+
+
 FAMILIES = {
     'shapes': family_shapes, 'sharing': family_sharing, 'canon': family_canon, 'uenc': family_uenc,
     'bounds': family_bounds, 'linmix': family_linear_mix, 'alldiffcont': family_alldiff_cont,
     'compl': family_compl, 'sos': family_sos, 'dvars': family_dvars, 'fracint': family_fracint,
-    'cones': family_cones, 'pl': family_pl,
+    'cones': family_cones, 'pl': family_pl, 'affprod': family_affprod,
 }
 
 
